@@ -296,6 +296,10 @@ class Ref:
             # HostARP falls back to the default gateway when the on-link address does not answer
             pg, fates = via_gateway()
             alts.append((pg or on, fates if gw is not None else {(DROP, "arp-unresolved")}))
+            if pg is not None and pg != on:
+                # ... but only when it has to ask: with a cached entry the frame is put on the dead link and lost, while
+                # the gateway on the other interface would deliver it. Cold and warm caches differ -> both fates.
+                alts.append((on, {(DROP, "cached-entry-on-dead-link")}))
         if len(self.ports[src]) > 1 and owners:
             pg, fates = via_gateway()
             if pg is not None and pg != on:
